@@ -178,9 +178,8 @@ func c05Payload(c *ctx, sc schemaSpec, payload string, how string) {
 					}
 				}
 			}
-			return oC("request"), off
+			return oC("request", oB(req.Doc != nil)), off
 		})
-		r.obs = "" // not part of the correspondence observation
 		results = append(results, r)
 	}
 	names := []string{"UnmarshalDocument", "UnmarshalResource", "UnmarshalPartialResource", "UnmarshalCollection", "UnmarshalIdentifier", "UnmarshalIdentifiers", "NewRequest(POST)", "NewRequest(PATCH)", "NewRequest(GET)"}
